@@ -551,6 +551,98 @@ def ob_ternary_operands(run, mir, rp):
         ob.inconclusive(str(e))
 
 
+INTERPOLATIONS = [
+    # (role, Mamba program, stdout the Mamba text means)
+    ("mod", "print(\"{5 mod 2}\")", "1"),
+    ("sqrt", "def a := 16\nprint(\"{sqrt a}\")", "4.0"),
+    ("equality", "def a := 3\nprint(\"{a = 3}\")", "True"),
+    ("inequality", "def a := 3\nprint(\"{a /= 3}\")", "False"),
+    ("string-literal", "print(\"a {\"b\"}\")", "a b"),
+    ("power", "def a := 3\nprint(\"{a ^ 2}\")", "9"),
+    ("plain-name", "def a := 3\nprint(\"v={a}\")", "v=3"),
+    ("arithmetic", "def a := 3\nprint(\"{a} and {a + 1}\")", "3 and 4"),
+    ("index", "def a := [1, 2]\nprint(\"{a[0]}\")", "1"),
+    ("not", "def a := True\nprint(\"{not a}\")", "False"),
+    ("floor-division", "def a := 7\nprint(\"{a // 2}\")", "3"),
+]
+
+
+def ob_interpolation(run, mir, rp, mode="syntax"):
+    """The expressions inside a string's {..} are Mamba expressions: they have to go through the converter like any other."""
+    import convkern
+    from props import C01
+    ob = run.ob("interpolations-converted", "E2", "convert_node, Str arm with interpolated expressions: the text of the emitted f-string is built from the "
+                "conversions of the interpolated expressions (each is handed to convert_node / convert_vec) - not a copy of the Mamba source text "
+                "between the braces, which need not be Python (`mod`, `sqrt`, `=`, `/=`, nested quotes) or means something else (`^`)",
+                ["convert_node (Str)"])
+    try:
+        arm = convkern.Arm(run, mir, "convert_node", "src/generate/convert/mod.rs", "Str")
+    except Unsupported as e:
+        return ob.inconclusive(f"Str arm not encodable: {e}")
+    ex = arm.ex
+    claims, n = [], 0
+    lit = ex.to_val(arm.st, arm.kids["lit"])
+    exprs = ex.to_val(arm.st, arm.kids["expressions"])
+    copies = 0
+    for p in arm.ends:
+        if not (p.kind == "return" and isinstance(p.ret, Agg) and p.ret.variant == "Ok"):
+            continue
+        post = [ev for ev in p.events if ev["name"].split("::")[-1] in ("append_assign", "append_ret")]
+        core = p.ret.fields[0]
+        if post:
+            a0 = post[0]["args"][0]
+            core = ex.read_ref(p.state, a0) if isinstance(a0, Ref) else a0
+        if not (isinstance(core, Agg) and core.variant == "FStr"):
+            continue
+        n += 1
+        conv = [ev for ev in p.events if ev["name"].split("::")[-1] in ("convert_node", "convert_vec") and
+                any(exprs.get_id() in {t.get_id() for t in _subterms(a)} for a in ev["argvals"][:1])]
+        is_copy = z3.eq(ex.to_val(p.state, core.fields[0]), lit)
+        copies += bool(is_copy)
+        claims.append(z3.Implies(conj(p.cond), z3.BoolVal(bool(conv) and not is_copy)))
+    if not n:
+        return ob.inconclusive("no path of the Str arm builds an f-string")
+
+    def replay(model):
+        bad = []
+        for role, src, want in INTERPOLATIONS:
+            st_, out = rp.transpile(src)
+            if st_ != "OK":
+                bad.append((role, f"{src!r}: {st_} {out[:80]!r}"))
+                continue
+            try:
+                ast.parse(out)
+            except SyntaxError as e:
+                bad.append((role, f"{src!r} is emitted as {out.strip()!r}, which Python refuses: {e}"))
+                continue
+            if mode == "meaning":
+                rc, so, se = C01.py_run(out)
+                if rc != 0 or so.strip() != want:
+                    bad.append((role, f"{src!r} is emitted as {out.strip()!r}, which prints {so.strip()!r} (rc={rc}) instead of {want!r}"))
+        if bad:
+            return {"reproduced": True, "role": "interpolation-copied-verbatim:" + "+".join(b[0] for b in bad), "detail": bad[0][1], "failing": [b[0] for b in bad]}
+        return {"reproduced": False, "detail": f"{len(INTERPOLATIONS)} interpolations are valid Python" + (" with the Mamba meaning" if mode == "meaning" else "")}
+    e2.prove(run, ob, ex, [], conj(claims), {}, replay)
+    if ob.status == "discharged":
+        rep = replay({})
+        run.validated += len(INTERPOLATIONS)
+        if rep["reproduced"]:
+            ob.status = "pending"
+            ob.inconclusive("interpolations misbehave although the kernel converts them: " + rep["detail"][:300])
+    run.samples.append({"obligation": ob.id, "fstring_paths": n, "paths_that_copy_the_source_text": copies})
+
+
+def _subterms(t):
+    seen, stack = {}, [t]
+    while stack:
+        x = stack.pop()
+        if x.get_id() in seen:
+            continue
+        seen[x.get_id()] = x
+        stack.extend(x.children())
+    return list(seen.values())
+
+
 def run(run):
     mir = e2.load_mir(run)
     rp = common.Replay()
@@ -566,6 +658,7 @@ def run(run):
     ob_empty_bodies(run, mir, rp)
     ob_literals(run, mir, rp)
     ob_ternary_operands(run, mir, rp)
+    ob_interpolation(run, mir, rp, "syntax")
     rp.close()
     # an operand that needs delimiting and does not get it can be a syntax error too (`a == not b`): the C10 machinery with
     # "Python refuses the text" as the only failure
